@@ -61,6 +61,24 @@ impl EvictionPolicy for Lru {
             }
         }
     }
+
+    #[cfg(salsa_rs_salsa_verif)]
+    fn verif_dump(&self) -> String {
+        self.verif_dump_impl()
+    }
+}
+
+#[cfg(salsa_rs_salsa_verif)]
+impl Lru {
+    pub(crate) fn verif_dump_impl(&self) -> String {
+        let set = self.set.lock();
+        let ids: Vec<String> = set.iter().map(|id| format!("{}", id.index())).collect();
+        format!(
+            "cap={} order=[{}]",
+            self.capacity.map_or(0, |c| c.get()),
+            ids.join(",")
+        )
+    }
 }
 
 impl HasCapacity for Lru {}
